@@ -227,6 +227,9 @@ func (c *c03) DumpCase(seed uint64, idx int) []Case {
 	p, multi := c.genProject(r)
 	// Names are unique per case: state that a changed tree may keep per file name must come from
 	// this case's own history, not from whatever case this worker process ran before.
+	if r.chance(120) {
+		p = lineNoise(&p, r)
+	}
 	caseDir := fmt.Sprintf("/sim/k%d", idx)
 	p = rebase(&p, caseDir)
 	cs.Project = p
